@@ -75,6 +75,9 @@ def evaluate(e, env):
             c_, f_ = find_method(env["__classdefs__"], base[".__cls__"], e.attr)
             if f_ is not None and any(isinstance(d_, ast.Name) and d_.id == "property" for d_ in f_.decorator_list): return call_method_of(base, c_, f_, [], {}, env)
             if f_ is not None: return PyFn(lambda *a, _c=c_, _f=f_, _b=base, **k: call_method_of(_b, _c, _f, list(a), k, env))       # a bound method used as a value
+            for cn_ in _mro(env["__classdefs__"], base[".__cls__"]):            # a class-level constant of the instance's class or a base class
+                fc_, vc_ = _class_constant(e.attr, env, cn_)
+                if fc_: return vc_
             if e.attr != "__dict__" and e.attr != "__class__": raise Raised("AttributeError")
         if isinstance(base, Inst) and e.attr == "__dict__": return {k_[1:]: v_ for k_, v_ in base.items() if k_.startswith(".") and not k_.startswith(".__")}
         if isinstance(base, Inst) and e.attr == "__class__": return {".__name__": base[".__cls__"], ".kind": "cls"}
@@ -150,6 +153,7 @@ def evaluate(e, env):
         if e.id in TRUSTED: return TRUSTED[e.id]            # a whitelisted standard-library module the analysed file imports under its own name
         if e.id in ("list", "dict", "set", "tuple", "str", "int", "float", "bool", "frozenset"): return PyFn({"list": list, "dict": dict, "set": set, "tuple": tuple, "str": str, "int": int, "float": float, "bool": bool, "frozenset": frozenset}[e.id])    # a builtin type used as a value (e.g. defaultdict(list))
         if e.id == "object": return ClassRef("object")
+        if e.id in ("staticmethod", "classmethod"): return PyFn(lambda f: f)        # as a call in a class body: the wrapped callable itself
         if e.id in ("defaultdict", "OrderedDict"): return PyFn(lambda *a, _n=e.id, **k: getattr(__import__("collections"), _n)(*[(x.fn if isinstance(x, PyFn) else x) for x in a], **k))
         # a module-level constant of the analysed file (env["__module__"]: its ast.Module): literal tables and strings
         mod = env.get("__module__")
@@ -643,6 +647,10 @@ def _exec(stmts, env, max_steps=2000):
     or dict, return, raise, pass, docstrings) with `evaluate` for the expressions; returns the returned value (None if the
     block falls off its end).  The environment maps names and dotted attribute chains ('self.x.y') to sample values."""
     steps = [0]
+    if "__module__" not in env and stmts:          # the module the interpreted statements stand in (ASTs loaded by sa.util carry parent links): its constants and trusted imports are visible
+        m_ = stmts[0]
+        while m_ is not None and not isinstance(m_, ast.Module): m_ = getattr(m_, "_parent", None)
+        if m_ is not None: env["__module__"] = m_
     def assign(tg, v):
         if isinstance(tg, ast.Name):
             if tg.id in env.get("__global_names__", ()) and env.get("__globals__") is not None: env["__globals__"][tg.id] = v
@@ -795,6 +803,7 @@ def _exec(stmts, env, max_steps=2000):
                 env["__global_names__"] = set(env.get("__global_names__", ())) | set(s.names); continue
             if isinstance(s, ast.Nonlocal):
                 env["__nonlocal_names__"] = set(env.get("__nonlocal_names__", ())) | set(s.names); continue
+            if isinstance(s, ast.ClassDef) and isinstance(env.get(s.name), PyFn): continue       # a local class the analysis supplies a recording stand-in for
             if isinstance(s, ast.FunctionDef):
                 env[s.name] = DefClosure(s, env)
                 if s.name in (env.get("__functions__") or {}):       # the nearer definition wins over a same-named helper of an outer scope
